@@ -18,7 +18,9 @@ MANIFEST = dict(
          "analysis of the raise guards); a field position looked up by name is never used as a found/not-found flag (position 0 is the "
          "first field); no entry of the new descriptor is rebuilt from a field view (arr[name].dtype / .shape) or cut to (name, type), "
          "which loses the sub-array shape for some array dimensionality; combine_fields' rejection of arrays of different length compares "
-         ".shape, not a quantity arrays of different length can share (.size, .ndim, one axis); the returned array is fresh (alias analysis: it shares no buffer with "
+         ".shape, not a quantity arrays of different length can share (.size, .ndim, one axis); the sequence that drives each field list is the "
+         "documented one (extract/remove and the tail of reorder walk the array's own fields in dtype order, the head of reorder and split_fields "
+         "walk the request in the order given; never a sorted / set / reversed collection of names); the returned array is fresh (alias analysis: it shares no buffer with "
          "any argument).",
     note="Not decided: element-wise equality (numpy field assignment trusted), rejection of a shared name (delegated to numpy.dtype "
          "construction, a trusted idiom). remove_fields documents only scalar/list names; tuple/array name lists are an observation.",
@@ -32,7 +34,7 @@ NU = "esutil.numpy_util."
 # rules that keep their verdict however the code is laid out (decided on the symbolic values below and on the effect analysis);
 # every other rule of this check is a template rule (vcheck.core.Check.obt): it is evaluated on the same values but a mismatch
 # in a restructured function is "not recognised", not a violation
-SEMANTIC = ('R07.alloc', 'R07.args', 'R07.copier', 'R07.defaults', 'R07.fresh', 'R07.nonempty', 'R07.lookup', 'R07.entry', 'R07.samelen')
+SEMANTIC = ('R07.alloc', 'R07.args', 'R07.copier', 'R07.defaults', 'R07.fresh', 'R07.nonempty', 'R07.lookup', 'R07.entry', 'R07.samelen', 'R07.seq')
 
 
 # --------------------------------------------------------------------------------------------------------------------
@@ -70,10 +72,11 @@ class _Unrec(Exception):
 
 
 class _Loop:
-    __slots__ = ("id", "src", "node", "broken")
+    __slots__ = ("id", "src", "node", "broken", "unordered")
 
     def __init__(self, i, src, node):
         self.id, self.src, self.node, self.broken = i, src, node, False
+        self.unordered = False      # the loop walks a set written at the loop itself (`for n in set(names)`): no defined order
 
     def __repr__(self):
         return "L%d<%s>" % (self.id, _show(self.src))
@@ -622,7 +625,7 @@ class _Interp:
         return None
 
     # -- for -----------------------------------------------------------------------------------------------------------
-    def iterate(self, it, target, st, body, node):
+    def iterate(self, it, target, st, body, node, unordered=False):
         it = self.dictkind(it)
         if it[0] in ("IMAP", "NMAP"):
             it = ("NAMES", it[1])      # walking a dict walks its keys, in insertion order
@@ -636,6 +639,7 @@ class _Interp:
             segs = None
         if segs is None:
             lp = self.newloop(it, node)
+            lp.unordered = bool(unordered)
             segs = [_Seg((lp,), (), self.elem_of(it, lp))]
         mine = []
         for sg in segs:
@@ -657,7 +661,7 @@ class _Interp:
         for x in ast.walk(s):
             if isinstance(x, ast.Name) and isinstance(x.ctx, ast.Store):
                 assigned.add(x.id)
-        r = self.iterate(it, s.target, st, lambda st2: self.block(s.body, st2), s)
+        r = self.iterate(it, s.target, st, lambda st2: self.block(s.body, st2), s, unordered=_is_set_display(s.iter, st))
         for k in assigned:
             v = st.vars.get(k)
             if v is not None and v[0] not in ("LIST", "ALLOC", "FUNC", "CNT"):
@@ -685,7 +689,7 @@ class _Interp:
                 gT, _ = self.cond(c, st2)
                 gs += tuple(_Guard(cc, p, c) for cc, p in gT)
             return self.comp_iter(gens, st2.child(guards=st2.guards + gs), leaf, i + 1)
-        return self.iterate(it, g.target, st, body, g)
+        return self.iterate(it, g.target, st, body, g, unordered=_is_set_display(g.iter, st))
 
     # -- expressions ---------------------------------------------------------------------------------------------------
     def ev(self, e, st):
@@ -1169,6 +1173,13 @@ class _Interp:
         return ("RETS",) + tuple((v, tuple(gs[n0:])) for v, gs in rets)
 
 
+def _is_set_display(e, st):
+    """the expression is a set made on the spot: set(...) / frozenset(...) (the builtins) or a set display"""
+    if isinstance(e, ast.Set):
+        return True
+    return isinstance(e, ast.Call) and isinstance(e.func, ast.Name) and e.func.id in ("set", "frozenset") and st.lookup(e.func.id) is None and len(e.args) == 1
+
+
 _NOT_LIST_CLASSES = frozenset(["str", "bytes", "str_", "bytes_", "unicode", "tuple", "ndarray", "set", "frozenset", "dict", "int", "float", "bool", "number", "Number"])
 _MIRROR = {ast.Lt: ast.Gt, ast.Gt: ast.Lt, ast.LtE: ast.GtE, ast.GtE: ast.LtE}
 _OPTEXT = {ast.Lt: "<", ast.Gt: ">", ast.LtE: "<=", ast.GtE: ">=", ast.Eq: "==", ast.NotEq: "!="}
@@ -1285,7 +1296,7 @@ def _filters(guards):
 def _in_order_over(lp, F):
     """the loop visits every field of dtype F exactly once, in the order of the dtype"""
     s = lp.src
-    if lp.broken:
+    if lp.broken or lp.unordered:
         return False
     if s[0] in ("DESCR", "NAMES", "MAP", "RANGE"):
         return s[1] == F
@@ -1868,8 +1879,150 @@ def _filtered(chk, fi, it, alloc, pname, pol, key1, msg1, key2=None, msg2=None):
     return F
 
 
+# --------------------------------------------------------------------------------------------------------------------
+# R07.seq: WHICH sequence drives the field list.  The order of the fields of the result (of the views of split_fields) is the order
+# in which the loop that appends them visits its sequence.  Each operation documents that order: the array's own field order
+# (extract, remove, the tail of reorder), the order of the request (the head of reorder, split_fields).  The rule reads, for every
+# part of the list, the sequence its loop walks and how the appended element is tied to the visited one:
+#   'fields'     the loop visits every field of the array's dtype in dtype order and the element is the visited field's
+#   'request'    the loop visits the caller's names and the element is the field NAMED by the visited one
+#   'scrambled'  the loop visits the result of an operation that does not keep either order (sorted / np.unique / np.setdiff1d /
+#                np.intersect1d / np.union1d: alphabetical; a set or set algebra: arbitrary; reversed) and the element is the field
+#                named by the visited one: the fields then come alphabetically / arbitrarily / backwards for some array
+# A positive verdict needs the documented drivers; a negative one needs a positively identified wrong driver; anything else is
+# "not recognised".  Positions are not names: `sorted(<positions>)` restores dtype order and is never read as scrambled (the
+# element must be looked up BY THE NAME the loop visits).
+# --------------------------------------------------------------------------------------------------------------------
+_SORTED_RESULT = {"sorted": (1,), "unique": (1,), "sort": (1,), "setdiff1d": (2,), "intersect1d": (2, 3), "union1d": (2,), "setxor1d": (2, 3)}
+_SET_METHODS = ("difference", "intersection", "union", "symmetric_difference")
+
+
+def _scrambled(lp):
+    """why the sequence the loop walks is in neither the array's field order nor the caller's order, or None"""
+    s = lp.src
+    if lp.unordered:
+        return "a set made at the loop (its iteration order is arbitrary)"
+    if not isinstance(s, tuple) or not s:
+        return None
+    if s[0] == "CALL" and len(s) == 3:
+        nm, args = s[1], s[2]
+        if nm in _SORTED_RESULT and len(args) in _SORTED_RESULT[nm]:
+            return "%s(...) returns its values sorted (alphabetically for names)" % nm
+        if nm == "reversed" and len(args) == 1:
+            return "reversed(...) walks the names backwards"
+        if nm in ("set", "frozenset") and len(args) == 1:
+            return "a set (its iteration order is arbitrary)"
+    if s[0] == "MCALL" and len(s) == 4 and s[1] in _SET_METHODS:
+        return "the result of set.%s() (a set: its iteration order is arbitrary)" % s[1]
+    if s[0] == "BIN" and s[1] in ("Sub", "BitAnd", "BitOr", "BitXor"):
+        return "the result of set algebra (`%s` of two collections of names is a set: its iteration order is arbitrary)" % {"Sub": "-", "BitAnd": "&", "BitOr": "|", "BitXor": "^"}[s[1]]
+    if s[0] == "SLICE" and s[2].replace(" ", "") == "::-1":
+        return "`[::-1]` walks the names backwards"
+    return None
+
+
+def _request_of(t):
+    """the parameter behind a names argument that was defaulted (`if x is None: x = <all fields>`), None-preserved or scalar-wrapped"""
+    for _ in range(6):
+        if isinstance(t, tuple) and t and t[0] in ("DFLT", "OPT") and len(t) >= 2:
+            t = t[1]
+        elif isinstance(t, tuple) and t and t[0] == "NORM":
+            t = t[1]
+        else:
+            break
+    return t[1] if isinstance(t, tuple) and len(t) == 2 and t[0] == "P" else None
+
+
+def _driver(it, seg, F, req, by_name, by_visit):
+    """(kind, loop, text) for one part of a field list; by_name(n) is the element that is the field named n, by_visit(lp) the
+    element that is the field the in-order loop lp visits"""
+    if seg.elem[0] == "TAINT" or len(seg.loops) != 1 or seg.loops[0].broken:
+        return None, None, _seg_text([seg])
+    lp = seg.loops[0]
+    if _in_order_over(lp, F) and seg.elem in by_visit(lp):
+        return "fields", lp, "the array's fields in dtype order"
+    if lp.src[0] != "LIST" and seg.elem == by_name(("ELEM", lp.src, lp.id)):
+        why = _scrambled(lp)
+        if why:
+            return "scrambled", lp, "`%s`: %s" % (_show(lp.src), why)
+        if _request_of(lp.src) == req:
+            return "request", lp, "the names given in `%s`, in the order given" % req
+    if lp.unordered and lp.src[0] in ("NAMES", "FIELDS", "MAP", "DESCR") and lp.src[1] == F and seg.elem in by_visit(lp):
+        return "scrambled", lp, "`set(%s)`: %s" % (_show(lp.src), _scrambled(lp))
+    return None, lp, _seg_text([seg])
+
+
+def _request_filter(it, seg, lp, F, req):
+    """the part keeps the visited field only when its name is in (something computed from) the request"""
+    mine = ("NAME", F, ("K", lp.id))
+    return [g for g in _filters(seg.guards) if g.cond[0] == "IN" and g.pol and g.cond[1] == mine and ("P", req) in _deps(it, g.cond[2])]
+
+
+def _descr_drivers(it, alloc, F, req):
+    segs = alloc.d["segs"] if alloc is not None else None
+    if it.failed is not None or not segs:
+        return None
+    by_name = lambda n: ("ENTRY", F, ("N", n))  # noqa: E731
+    by_visit = lambda lp: (("ENTRY", F, ("K", lp.id)), ("ENTRY", F, ("N", ("NAME", F, ("K", lp.id)))))  # noqa: E731
+    return [(sg,) + _driver(it, sg, F, req, by_name, by_visit) for sg in segs]
+
+
+def _seq_original_order(chk, fi, it, alloc, req, what):
+    """extract / remove: the result's fields are in the array's own order, whatever the order of the request"""
+    q = fi.qualname
+    F = ("DT", ("P", fi.params[0]))
+    ds = _descr_drivers(it, alloc, F, req)
+    ok, why = None, " (not recognised: %s)" % (it.failed or "the new field list is not a list built here")
+    if ds is not None:
+        bad = [(k, t) for _, k, _, t in ds if k in ("scrambled", "request")]
+        if bad:
+            ok = False
+            why = ": the loop that appends the entries walks %s; each appended entry is the field named by the visited name, so the result's fields come in that order, not in the array's" % bad[0][1]
+        elif all(k == "fields" for _, k, _, _ in ds):
+            ok, why = True, ""
+        else:
+            why = " (not recognised: %s)" % [t for _, k, _, t in ds if k is None][:1]
+    chk.ob("R07.seq", q + "::fields-in-original-order", ok, _where(fi, alloc) if alloc is not None else fi.where(),
+           "%s: the entries of the new descr are appended by a walk over the array's own fields in dtype order%s" % (what, why))
+
+
+def _seq_reorder(chk, fi, it, alloc):
+    """reorder: first the named fields, driven by the request in the order given; then the rest, driven by the array's field order"""
+    q = fi.qualname
+    req = fi.params[1]
+    F = ("DT", ("P", fi.params[0]))
+    ds = _descr_drivers(it, alloc, F, req)
+    w = _where(fi, alloc) if alloc is not None else fi.where()
+    if ds is None:
+        for key in ("::named-fields-in-request-order", "::rest-in-original-order"):
+            chk.ob("R07.seq", q + key, None, w, "the new field list was not recognised (%s)" % (it.failed or "not a list built here"))
+        return
+    kinds = [k for _, k, _, _ in ds]
+    scr = [t for _, k, _, t in ds if k == "scrambled"]
+    # the head: some part is driven by the request, and no part takes the named fields in another order
+    head_bad = None
+    for sg, k, lp, t in ds:
+        if k == "fields" and _request_filter(it, sg, lp, F, req) and "request" not in kinds:
+            head_bad = "the named fields are taken by a walk over the array's fields filtered by the request (%s): they come in the array's order, not in the order given" % _seg_text([sg])
+        elif k == "scrambled" and ("P", req) in _deps(it, lp.src) and "request" not in kinds:
+            head_bad = "the named fields are taken by a walk over %s" % t
+    ok = False if head_bad else (True if "request" in kinds and None not in kinds else None)
+    chk.ob("R07.seq", q + "::named-fields-in-request-order", ok, w,
+           "the named fields are appended by a walk over the requested names in the order given%s"
+           % (": " + head_bad if head_bad else ("" if ok else " (not recognised: %s)" % [t for _, k, _, t in ds if k is None][:1])))
+    # the tail: every part that is not driven by the request is driven by the array's field order
+    rest = [(sg, k, lp, t) for sg, k, lp, t in ds if k != "request"]
+    tail_bad = [t for sg, k, lp, t in rest if k == "scrambled" and not (head_bad and ("P", req) in _deps(it, lp.src) and len(rest) > 1)]
+    ok = False if tail_bad else (True if rest and all(k == "fields" for _, k, _, _ in rest) and "request" in kinds else None)
+    chk.ob("R07.seq", q + "::rest-in-original-order", ok, w,
+           "the fields that were not named are appended by a walk over the array's own fields in dtype order%s"
+           % (": they are appended by a walk over %s; each appended entry is the field named by the visited name, so the remaining fields follow in that order, "
+              "not in their original order" % tail_bad[0] if tail_bad else ("" if ok else " (not recognised: %s)" % ([t for _, k, _, t in ds if k is None][:1] or kinds))))
+
+
 def extract(chk, repo, fi, it, alloc):
     q = fi.qualname
+    _seq_original_order(chk, fi, it, alloc, fi.params[1], "extraction keeps the original order")
     F = _filtered(chk, fi, it, alloc, fi.params[1], True, "original-order-filtered-by-membership",
                   "extraction walks arr.dtype.descr in original order and keeps the unmodified entry when its name is requested",
                   "name-is-entry[0]", "the tested name is the entry's own name")
@@ -1914,6 +2067,7 @@ def extract(chk, repo, fi, it, alloc):
 
 def remove(chk, repo, fi, it, alloc):
     q = fi.qualname
+    _seq_original_order(chk, fi, it, alloc, fi.params[1], "removal keeps the original order")
     _filtered(chk, fi, it, alloc, fi.params[1], False, "original-order-filtered-by-non-membership",
               "removal walks the original descr in order and keeps the unmodified entry when its name is not listed",
               "descr-is-input-descr", "the walked descr is arr.dtype.descr")
@@ -2022,6 +2176,7 @@ def reorder(chk, repo, fi, it, alloc):
     F = ("DT", ("P", arr))
     segs = alloc.d["segs"] if alloc is not None else None
     two = None if segs is None else len(segs) == 2
+    _seq_reorder(chk, fi, it, alloc)
     chk.ob("R07.order", q + "::two-passes", two, fi.where(), "two passes build the new order (found: %s)" % _seg_text(segs))
     if not two:
         return
@@ -2302,6 +2457,57 @@ def split(chk, repo, fi):
             if v is True:
                 ok, msg = True, msg + " [not in the reviewed statement form; decided on the returned value: %s]" % sem["text"]
         chk.ob(rule, key, ok, where, msg)
+    _seq_split(chk, fi, interp(repo, fi))
+
+
+def _seq_split(chk, fi, it):
+    """R07.seq for split_fields: `f1, f2 = split_fields(data, fields=[a, b])` documents that the i-th view is the i-th requested field.
+    The tuple that is returned is built from a list; the loop that appends the views must walk the request (or, by default, all the
+    fields) and append the view of the visited name.  A walk over the dtype's names filtered by the request, or over a sorted /
+    set / reversed version of the request, gives every view but in another order."""
+    q = fi.qualname
+    data, req = ("P", fi.params[0]), fi.params[1]
+    F = ("DT", data)
+    ok, why = None, ""
+    if it.failed is not None:
+        why = " (not recognised: %s)" % it.failed
+    else:
+        lists = []
+        for e in it.of("return"):
+            v = e.d["value"]
+            if e.d["implicit"]:
+                continue
+            if v[0] == "TUPLE" and len(v) == 3 and v[1][0] == "LIST":
+                v = v[1]
+            if v[0] == "LIST" and v not in [x for x, _ in lists]:
+                lists.append((v, e))
+        by_name = lambda n: ("ITEM", data, n)  # noqa: E731
+        by_visit = lambda lp: (("ITEM", data, ("NAME", F, ("K", lp.id))),)  # noqa: E731
+        verdicts = []
+        for lst, e in lists:
+            segs = it.heap.get(lst[1], [])
+            if not segs:
+                verdicts.append((None, "an empty list"))
+            for sg in segs:
+                k, lp, t = _driver(it, sg, F, req, by_name, by_visit)
+                if k == "scrambled":
+                    verdicts.append((False, "the views are appended by a walk over %s; the i-th view is then not the i-th requested field" % t))
+                elif k == "fields" and _request_filter(it, sg, lp, F, req):
+                    verdicts.append((False, "the views are appended by a walk over the dtype's own names that keeps the requested ones (%s): they come in the "
+                                            "array's field order, not in the order of `%s`" % (_seg_text([sg]), req)))
+                elif k == "request" and not [g for g in _filters(sg.guards) if not any(g is h for h in e.guards)]:
+                    verdicts.append((True, ""))
+                else:
+                    verdicts.append((None, t))
+        bad = [w for v, w in verdicts if v is False]
+        if bad:
+            ok, why = False, ": " + bad[0]
+        elif verdicts and all(v is True for v, _ in verdicts):
+            ok = True
+        else:
+            why = " (not recognised: %s)" % ([w for v, w in verdicts if v is None][:1] or "no list of views is returned")
+    chk.ob("R07.seq", q + "::views-in-request-order", ok, fi.where(),
+           "the views are appended by a walk over the requested names in the order given (all fields in dtype order by default), one view per visited name%s" % why)
 
 
 def _split_values(it, fi):
